@@ -62,12 +62,14 @@ pub struct Game {
     /// newest save made for a frame: (state, serial)
     pub saved: BTreeMap<i32, (u64, u64)>,
     /// every checksum ever saved for a frame (pruned to a recent horizon)
-    pub checksums: BTreeMap<i32, Vec<u64>>,
+    pub checksums: BTreeMap<i32, Vec<u128>>,
     /// frames below this index are sealed: later re-simulations must use identical values
     pub sealed: i32,
     pub perturb: Option<(i32, PerturbMode)>,
     /// save `None` data into the cells and restore from this game's own record of its saves
     pub own_snapshots: bool,
+    /// see RunCfg::checksum_layout
+    pub checksum_layout: u8,
     nondet_ctr: u64,
     pub stats: GameStats,
     pub trace: Roll,
@@ -87,9 +89,19 @@ impl Game {
             sealed: 0,
             perturb: None,
             own_snapshots: false,
+            checksum_layout: 0,
             nondet_ctr: 0,
             stats: GameStats::default(),
             trace: Roll::default(),
+        }
+    }
+
+    /// The checksum this game publishes for its current state.
+    pub fn checksum(&self) -> u128 {
+        match self.checksum_layout {
+            1 => ((self.state as u128) << 64) | (self.g as u32 as u128),
+            2 => ((crate::rng::mix(self.state) as u128) << 64) | self.state as u128,
+            _ => self.state as u128,
         }
     }
 
@@ -146,9 +158,10 @@ impl Game {
                     }
                     self.serial += 1;
                     let data = if self.own_snapshots { None } else { Some(GState { frame: self.g, state: self.state, serial: self.serial }) };
-                    cell.save(frame, data, Some(self.state as u128));
+                    let checksum = self.checksum();
+                    cell.save(frame, data, Some(checksum));
                     self.saved.insert(frame, (self.state, self.serial));
-                    self.checksums.entry(frame).or_default().push(self.state);
+                    self.checksums.entry(frame).or_default().push(checksum);
                     self.stats.saves += 1;
                     if self.saved.len() > 200 {
                         let cut = self.g - 100;
